@@ -3,6 +3,7 @@
 Spec: specs/iset/ISet.tla, ISetMC (graph), ISetTrace.
 """
 import json
+import os
 import random
 import time
 
@@ -375,10 +376,78 @@ def record(ntraces, length, seed, nitems):
     return traces
 
 
+def impl_shape(stats, thorough, seed):
+    """ISetDead.tla: the tombstone / dead-interval mechanism, model-checked for every history within its bounds (with the
+    pre-repair trimming as negative control), then bound to the code's private state when that still has this shape.
+    Returns 'conforms' | 'drift' | 'absent'. Drift is not a violation of C11 (the property is about public behaviour); it
+    makes the behavioural exploration below wider."""
+    for cfg in (["ISetDead_thorough.cfg"] if thorough else ["ISetDead_quick.cfg"]) + ["ISetDead_cf2.cfg"]:
+        stats.add_tlc(tlc_must_pass(SPECDIR, "ISetDead.tla", cfg, workers=core.NCPU, timeout=2400))
+    neg = core.tlc(SPECDIR, "ISetDead.tla", "ISetDead_unrepaired.cfg", workers=core.NCPU, timeout=600)
+    if neg.ok or neg.invariant_violated not in ("InvIntervals", "InvTranslation"):
+        raise core.MachineryError("ISetDead negative control: the pre-repair trimming was not rejected by TLC")
+    stats.extra["mechanism_model_negative_control"] = "pre-repair right-edge trimming violates " + neg.invariant_violated
+    core.repo_on_path()
+    from boltons import setutils
+    probe = setutils.IndexedSet()
+    if not all(hasattr(probe, a) for a in ("item_list", "dead_indices", "item_index_map")) or not hasattr(setutils, "_MISSING"):
+        return "absent"
+    traces = []
+    try:
+        for t in range(16 if thorough else 8):
+            rng = random.Random(seed * 1000 + t)
+            s_, evs = setutils.IndexedSet(), []
+            grow = rng.choice([20, 120, 300])
+            for _ in range(1500 if thorough else 500):
+                n = len(s_)
+                c = rng.random()
+                if n < grow or c < 0.45:
+                    x = rng.randint(1, 700)
+                    if x in s_:
+                        continue
+                    s_.add(x)
+                    op = {"op": "add", "x": x}
+                elif c < 0.75:
+                    x = s_[rng.randrange(n)] if rng.random() < 0.7 else s_[min(n - 1, rng.randrange(n) // 4)]
+                    s_.remove(x)
+                    op = {"op": "remove", "x": x}
+                else:
+                    i = rng.randrange(n)
+                    s_.pop(i)
+                    op = {"op": "pop", "x": i}
+                op["il"] = [0 if e is setutils._MISSING else e for e in s_.item_list]
+                op["dead"] = [[int(d[0]), int(d[1])] for d in s_.dead_indices]
+                evs.append(op)
+            traces.append({"ev": evs})
+    except Exception as ex:
+        stats.extra["mechanism_binding_note"] = "recording the private state failed: " + core.exc_name(ex)
+        return "drift"
+    import tempfile
+    import shutil
+    td = tempfile.mkdtemp(prefix="c11isd-")
+    try:
+        tf = os.path.join(td, "traces.json")
+        with open(tf, "w") as f:
+            json.dump(traces, f)
+        r = core.tlc(SPECDIR, "ISetDeadTrace.tla", "ISetDeadTrace.cfg", workers=1, timeout=1200, env={"TRACE_FILE": tf})
+    finally:
+        shutil.rmtree(td, ignore_errors=True)
+    accepted = sum(1 for l_ in r.out.splitlines() if l_.startswith('<<"ACCEPT"'))
+    stats.extra["mechanism_binding"] = {"private_state_traces": len(traces), "events": sum(len(t_["ev"]) for t_ in traces), "accepted_by_ISetDeadTrace": accepted,
+                                        "max_dead_intervals_seen": max([len(e["dead"]) for t_ in traces for e in t_["ev"]] or [0])}
+    if r.ok and accepted == len(traces):
+        return "conforms"
+    drift = [l_ for l_ in r.out.splitlines() if l_.startswith('<<"DRIFT"')]
+    stats.extra["mechanism_binding_note"] = (drift[0][:600] if drift else "invariant %s violated on the recorded private state" % r.invariant_violated)
+    return "drift"
+
+
 def main(tier, seed):
     t0 = time.time()
     stats, verdict = Stats(), Verdict(PROP, tier, seed)
     thorough = tier == "thorough"
+    shape = impl_shape(stats, thorough, seed)
+    stats.extra["mechanism_binding_result"] = shape
     stats.add_tlc(tlc_must_pass(SPECDIR, "ISetMC.tla", "ISetMC_thorough.cfg" if thorough else "ISetMC.cfg", workers=core.NCPU, timeout=2400))
     r = tlc_must_pass(SPECDIR, "ISetMC.tla", "ISetGen_thorough.cfg" if thorough else "ISetGen.cfg", workers=1, timeout=2400, heap="8g")
     stats.add_tlc(r)
@@ -391,6 +460,9 @@ def main(tier, seed):
     canary(stats)
     traces = record(16, 1500, seed, 600) + record(16, 400, seed + 1, 40) if not thorough else \
         record(48, 6000, seed, 600) + record(32, 2000, seed + 1, 60) + record(8, 20000, seed + 2, 2500)
+    if shape != "conforms":
+        # the list side is no longer the mechanism that was model-checked: widen the behavioural exploration
+        traces += record(32, 1500, seed + 7, 600) + record(16, 1500, seed + 8, 120)
     core.validate_traces_generic(SPECDIR, "ISetTrace.tla", "ISetTrace.cfg", traces, stats, verdict, Driver.subject,
                                  shards=min(core.NCPU, len(traces)))
     stats.extra["second_objects_forked_in_traces"] = sum(1 for t_ in traces for e in t_["ev"] if e["fork"])
